@@ -3,9 +3,9 @@
    Gen/Codecs.v is regenerated from cspuz/puzzle/*.py on every run (harness/c16trans.py):
    the statements about <P>_COMBINATOR / serialize_<p>_w / deserialize_<p>_w below are
    obligations about the code as it is now. *)
-From Coq Require Import ZArith List Ascii Bool.
-From Cspuz Require Import Lib.PyErr Codec.Comb Codec.CombWf Codec.CombRoundTrip Codec.Legacy Codec.Url Codec.UrlProofs
-  Codec.Yajilin Codec.Puzzles Codec.PuzzleProofs Gen.Codecs.
+From Coq Require Import ZArith List Ascii Bool Lia Sorting.Permutation.
+From Cspuz Require Import Lib.PyErr Codec.Comb Codec.CombWf Codec.CombRoundTrip Codec.Legacy Codec.LegacyProofs Codec.Url
+  Codec.UrlProofs Codec.Yajilin Codec.Puzzles Codec.SerChars Codec.PuzzleProofs Gen.Codecs.
 Import ListNotations.
 Local Open Scope Z_scope.
 
@@ -53,30 +53,42 @@ Qed.
 Print Assumptions generated_wrappers_consistent.
 
 (* ------------------------------------------------------------------ URL level from body level (all nine modules) *)
-(* For any module whose wrappers are consistent: if the body serialization of a problem
-   round-trips (and has no newline), then serialize_<p> writes
+(* no text any of the nine terms serializes to contains a newline (so `.*` reads all of it);
+   this holds for YajilinClue as well *)
+Theorem generated_terms_newline_free :
+  nl_free NURIKABE_COMBINATOR = true /\ nl_free MASYU_COMBINATOR = true /\ nl_free SLITHERLINK_COMBINATOR = true /\
+  nl_free SUDOKU_COMBINATOR = true /\ nl_free NURIMISAKI_COMBINATOR = true /\ nl_free YAJILIN_COMBINATOR = true /\
+  nl_free HEYAWAKE_COMBINATOR = true /\ nl_free LITS_COMBINATOR = true /\ nl_free NORINORI_COMBINATOR = true /\
+  (forall h w, cust_good (cu_env no_custom h w)) /\ (forall h w, cust_good (cu_env yajilin_custom h w)).
+Proof.
+  repeat split; try (vm_compute; reflexivity); [exact no_custom_cu_good | exact yajilin_cu_good].
+Qed.
+Print Assumptions generated_terms_newline_free.
+
+(* For any module whose wrappers are consistent and whose term writes no newline: if the
+   body serialization of a problem round-trips, then serialize_<p> writes
    prefix name/width/height/body and deserialize_<p> returns the problem, with
    (height, width) when return_size is set — for all sizes, square or not. *)
 Theorem url_from_body_roundtrip :
   forall cu sw dw h w pb pb' body,
     wrappers_consistent sw dw -> 0 <= h -> 0 <= w ->
-    serialize_problem_cu cu (sw_comb sw) pb h w = Ok body -> valid_body body ->
+    cust_good (cu_env cu h w) -> nl_free (sw_comb sw) = true ->
+    serialize_problem_cu cu (sw_comb sw) pb h w = Ok body ->
     deserialize_problem_cu cu (sw_comb sw) body h w = Ok (Some pb') ->
     run_ser_sized cu sw h w pb = Ok (make_url default_prefix (sw_puzzle sw) h w body) /\
     run_de cu dw (make_url default_prefix (sw_puzzle sw) h w body) = Ok (Some (sized dw h w pb')).
-Proof. exact url_level_roundtrip. Qed.
+Proof. exact url_level_roundtrip_nl. Qed.
 Print Assumptions url_from_body_roundtrip.
 
 (* ------------------------------------------------------------------ cell-grid codecs: full round trip *)
 (* nurikabe, masyu, slitherlink, sudoku, nurimisaki: for every board size h, w >= 1 and every
-   h x w problem for which serialize_<p> produces a URL, that URL is
-   https://puzz.link/p?<name>/<w>/<h>/<body> and deserialize_<p> returns the problem.
-   (Body without newline is still a hypothesis here, see the report; serialization succeeds
-   exactly on the cell values the text format can carry.) *)
+   h x w problem for which the body serialization succeeds (it succeeds exactly on the cell
+   values the text format can carry), serialize_<p> returns
+   https://puzz.link/p?<name>/<w>/<h>/<body> and deserialize_<p> of that URL returns the problem. *)
 Definition grid_codec_roundtrip_for (sw : ser_wrapper) (dw : de_wrapper) : Prop :=
   forall h w pb rows body,
     1 <= h -> 1 <= w -> grid_shape h w pb rows ->
-    serialize_problem_cu no_custom (sw_comb sw) pb h w = Ok body -> valid_body body ->
+    serialize_problem_cu no_custom (sw_comb sw) pb h w = Ok body ->
     run_ser_problem no_custom sw pb = Ok (make_url default_prefix (sw_puzzle sw) h w body) /\
     run_de no_custom dw (make_url default_prefix (sw_puzzle sw) h w body) = Ok (Some pb).
 
@@ -89,12 +101,13 @@ Theorem grid_codecs_roundtrip :
 Proof.
   pose proof generated_wrappers_consistent as (H1 & H2 & H3 & H4 & H5 & _).
   assert (T : forall sw dw c1, sw_comb sw = Grid c1 None -> wf (Grid c1 None) = true -> rooms_free c1 = true ->
-                cell_comb c1 = true -> wrappers_consistent sw dw -> dw_return_size dw = false ->
+                cell_comb c1 = true -> wrappers_consistent sw dw -> dw_return_size dw = false -> nl_free c1 = true ->
                 grid_codec_roundtrip_for sw dw).
-  { intros sw dw c1 E1 E2 E3 E4 E5 E6 h w pb rows body Hh Hw Hs Hser Hb.
+  { intros sw dw c1 E1 E2 E3 E4 E5 E6 E7 h w pb rows body Hh Hw Hs Hser.
     eapply grid_url_roundtrip; eauto. }
   split; [|split; [|split; [|split]]];
-    (eapply T; [reflexivity | vm_compute; reflexivity | reflexivity | reflexivity | assumption | reflexivity]).
+    (eapply T; [reflexivity | vm_compute; reflexivity | reflexivity | reflexivity | assumption | reflexivity
+               | vm_compute; reflexivity]).
 Qed.
 Print Assumptions grid_codecs_roundtrip.
 
@@ -106,3 +119,90 @@ Example nurikabe_instance :
   run_de no_custom deserialize_nurikabe_w
     (make_url default_prefix (sw_puzzle serialize_nurikabe_w) 1 3 (lit [103; 45; 49; 48; 46]%nat)) = Ok (Some pb).
 Proof. vm_compute. split; reflexivity. Qed.
+
+(* ------------------------------------------------------------------ room-based codecs (lits, norinori, heyawake) *)
+(* C15 states the round trip of Rooms / ValuedRooms for partitions given in any order as
+   [rooms_roundtrip_statement] / [valued_rooms_roundtrip_statement] (not proved there yet).
+   GIVEN those statements as explicit premises, the URL functions of the three room-based
+   modules round-trip every partition of every h x w board (h, w >= 1) into connected rooms:
+   the URL is prefix name/w/h/body and the decoder returns (h, w, the same partition in
+   canonical order [, the clues carried with their rooms]). *)
+Theorem rooms_codecs_roundtrip_given_rooms :
+  rooms_roundtrip_statement ->
+  forall sw dw, (sw = serialize_lits_w /\ dw = deserialize_lits_w) \/ (sw = serialize_norinori_w /\ dw = deserialize_norinori_w) ->
+  forall h w rs, 1 <= h -> 1 <= w -> valid_rooms h w rs ->
+  exists body rs',
+    run_ser_sized no_custom sw h w (rooms_to_pv rs) = Ok (make_url default_prefix (sw_puzzle sw) h w body) /\
+    canonical_rooms h w rs' /\ rooms_equiv rs rs' /\
+    run_de no_custom dw (make_url default_prefix (sw_puzzle sw) h w body) = Ok (Some (VTup [VInt h; VInt w; rooms_to_pv rs'])).
+Proof.
+  intros Hst sw dw Hsw.
+  pose proof generated_wrappers_consistent as (_ & _ & _ & _ & _ & _ & _ & H8 & H9).
+  destruct Hsw as [[-> ->]|[-> ->]].
+  - exact (rooms_url_roundtrip_given serialize_lits_w deserialize_lits_w false false Hst eq_refl H8).
+  - exact (rooms_url_roundtrip_given serialize_norinori_w deserialize_norinori_w false false Hst eq_refl H9).
+Qed.
+Print Assumptions rooms_codecs_roundtrip_given_rooms.
+
+Theorem heyawake_roundtrip_given_rooms :
+  valued_rooms_roundtrip_statement ->
+  forall h w rs vs body, 1 <= h -> 1 <= w -> valid_rooms h w rs -> length vs = length rs ->
+  serialize_problem_cu no_custom HEYAWAKE_COMBINATOR (VTup [rooms_to_pv rs; VList vs]) h w = Ok body ->
+  exists ps rs',
+    Permutation ps (combine rs vs) /\ Forall2 (fun p r' => Permutation (fst p) r') ps rs' /\ canonical_rooms h w rs' /\
+    run_ser_sized no_custom serialize_heyawake_w h w (VTup [rooms_to_pv rs; VList vs])
+      = Ok (make_url default_prefix (sw_puzzle serialize_heyawake_w) h w body) /\
+    run_de no_custom deserialize_heyawake_w (make_url default_prefix (sw_puzzle serialize_heyawake_w) h w body)
+      = Ok (Some (VTup [VInt h; VInt w; VTup [rooms_to_pv rs'; VList (map snd ps)]])).
+Proof.
+  intros Hst.
+  pose proof generated_wrappers_consistent as (_ & _ & _ & _ & _ & _ & H7 & _).
+  exact (valued_rooms_url_roundtrip_given serialize_heyawake_w deserialize_heyawake_w _ true false Hst eq_refl H7
+           ltac:(vm_compute; reflexivity) eq_refl eq_refl eq_refl).
+Qed.
+Print Assumptions heyawake_roundtrip_given_rooms.
+
+(* ------------------------------------------------------------------ yajilin (Combinator subclass YajilinClue) *)
+(* C15's general theorem does not cover Combinator subclasses.  The body-level round trip
+   of yajilin's term is the statement below (not proved; tied and searched on every run:
+   all clue kinds incl. "??", values 0..4095, boards up to 17x16 / 1x80).  Its URL level
+   then follows from url_from_body_roundtrip (wrappers consistent, no newline: proved above). *)
+Definition yajilin_cell_ok (v : pv) : Prop :=
+  v = VStr s_dotdot \/ v = VStr s_qq \/
+  exists c n, dir_code c = Ok (ord c - ord c + match dir_code c with Ok d => d | Err _ => 0 end) /\ 0 <= n <= 4095 /\
+              (exists d, dir_code c = Ok d) /\ v = VStr (c :: py_str_int n).
+
+Definition yajilin_body_roundtrip_statement : Prop :=
+  forall h w pb rows, 1 <= h -> 1 <= w -> grid_shape h w pb rows -> Forall (Forall yajilin_cell_ok) rows ->
+  exists body, serialize_problem_cu yajilin_custom YAJILIN_COMBINATOR pb h w = Ok body /\
+               deserialize_problem_cu yajilin_custom YAJILIN_COMBINATOR body h w = Ok (Some pb).
+
+(* ------------------------------------------------------------------ compass (legacy encoder + hand-written parser) *)
+(* For every board size h x w (h, w >= 0, square or not) and every list of clues
+   (y, x, up, left, down, right) inside the board, listed in row-major order of their cells
+   (strictly increasing, so no cell twice), every number blank (-1) or in 0..4095:
+   to_puzz_link_url writes https://puzz.link/p?compass/<w>/<h>/<body> and
+   parse_puzz_link_url returns exactly (h, w, clues). *)
+Theorem compass_roundtrip :
+  forall h w pos, 0 <= h -> 0 <= w -> compass_clues_ok h w pos ->
+    exists body,
+      to_puzz_link_url h w pos = Ok (make_url default_prefix ["c"; "o"; "m"; "p"; "a"; "s"; "s"]%char h w body) /\
+      parse_puzz_link_url (make_url default_prefix ["c"; "o"; "m"; "p"; "a"; "s"; "s"]%char h w body) = Ok (h, w, pos).
+Proof. exact compass_roundtrip_proof. Qed.
+Print Assumptions compass_roundtrip.
+
+(* the 5 x 4 board of DESIGN section 7 #17 (with a clue value >= 256 added) satisfies the hypotheses and
+   evaluates as stated *)
+Example compass_instance :
+  let pos := [(1, 1, (1, 2, -1, 3)); (2, 2, (-1, -1, 6, -1)); (3, 0, (4, -1, 300, 5))] in
+  compass_clues_ok 5 4 pos /\
+  match to_puzz_link_url 5 4 pos with Ok url => parse_puzz_link_url url = Ok (5, 4, pos) | Err _ => False end.
+Proof.
+  split.
+  - split; [|split].
+    + repeat constructor; simpl; lia.
+    + repeat (constructor; [unfold clue_ok, cell_ok, ctup, vnum; repeat split; ((left; reflexivity) || (right; lia))|]).
+      constructor.
+    + simpl. repeat split; lia.
+  - vm_compute. reflexivity.
+Qed.
